@@ -215,6 +215,12 @@ Fixpoint unpack (bs : list N) : option (list (N * N)) :=
   | _ => None
   end.
 
+(* port lists in Go's representation: [p] or [lo; hi], all values 16-bit *)
+Definition wf_entry (p : list N) : Prop :=
+  match p with [a] => a < 65536 | [a; b] => a < 65536 /\ b < 65536 | _ => False end.
+Definition entry_range (p : list N) : N * N :=
+  match p with [a] => (a, a) | [a; b] => (a, b) | _ => (0, 0) end.
+
 (* netlink semantics: the last attribute of a type wins *)
 Fixpoint get_attr (t : N) (al : list attr) (cur : option aval) : option aval :=
   match al with
